@@ -265,10 +265,17 @@ def value_aliases(body, local, passthrough=PASS_OK, refs=True):
                 continue
             src = None
             neg = False
+            payload = False
             if rv["k"] == "use":
                 p = op_place(rv["op"])
                 if p is not None and p.local in al and all(e == "*" for e in p.proj):
                     src = p.local
+                elif p is not None and p.local in al and len(p.proj) == 2 and \
+                        isinstance(p.proj[0], list) and p.proj[0][0] == "d" and \
+                        p.proj[0][2] in ("Continue", "Ok", "Some", "Ready") and \
+                        isinstance(p.proj[1], list) and p.proj[1][0] == "f" and p.proj[1][1] == 0:
+                    src = p.local
+                    payload = True
             elif rv["k"] == "ref" and refs:
                 p = Place(rv["place"])
                 if p.local in al and all(e == "*" for e in p.proj):
@@ -283,7 +290,7 @@ def value_aliases(body, local, passthrough=PASS_OK, refs=True):
                 if p is not None and p.local in al and not p.proj:
                     src = p.local
             if src is not None:
-                al[pl.local] = al[src] + (("not",) if neg else ())
+                al[pl.local] = al[src] + (("not",) if neg else ()) + (("payload",) if payload else ())
                 changed = True
         for bb, t in body.calls():
             d = Place(t["dest"])
@@ -435,6 +442,7 @@ TRANSPARENT = (
     "core::result::Result::map_err", "core::ops::try_trait::Try::branch",
     "core::option::Option::ok_or", "core::option::Option::ok_or_else",
     "core::option::Option::as_mut", "core::option::Option::take",
+    "core::option::Option::map", "core::result::Result::map", "core::result::Result::ok",
 )
 
 
